@@ -210,6 +210,31 @@ inline bool vp_is_known(std::string const &sig)
     return false;
 }
 
+// findings of the argument-evaluation scan of this unit (vp/once.py, generated into the unit's build directory): reported
+// by every case, so that any tape reproduces them
+#if defined(__has_include)
+#if __has_include("vp_once.h")
+#include "vp_once.h"
+#define VP_HAVE_ONCE 1
+#endif
+#endif
+static inline void vp_once_report(Ctx &cx)
+{
+#ifdef VP_HAVE_ONCE
+    if (vp_once_findings[0])
+    {
+        char sig[96];
+        char const *e = vp_once_findings[0];
+        size_t k = 0;
+        while (e[k] && e[k] != ' ' && k < 40) { ++k; }
+        snprintf(sig, sizeof(sig), "api:argument_evaluated_more_than_once:%.*s", int(k), e);
+        cx.fail(sig, "%s", e);
+    }
+#else
+    (void)cx;
+#endif
+}
+
 // wrapper: executors implement `static void run_case(Tape &, Ctx &)` and use VP_DEFINE_RUN
 #define VP_DEFINE_RUN(run_case)                                               \
     extern "C" int vp_run(uint8_t const *tape, size_t n, vp_report *rep)      \
@@ -218,6 +243,7 @@ inline bool vp_is_known(std::string const &sig)
         Ctx cx(rep);                                                          \
         try                                                                   \
         {                                                                     \
+            vp_once_report(cx);                                               \
             run_case(t, cx);                                                  \
         }                                                                     \
         catch (vp_fail const &)                                               \
